@@ -604,7 +604,7 @@ _mk_container(
 )
 _mk_container(
     "ColumnsB", "box", "box",
-    lambda kids, typ: urwid.Columns([kids[0], (3, urwid.Filler(urwid.Edit("", "sb"))), (1, urwid.SolidFill("|"))], dividechars=0),
+    lambda kids, typ: urwid.Columns([kids[0], (3, urwid.Filler(urwid.Edit("", "sb", edit_pos=0))), (1, urwid.SolidFill("|"))], dividechars=0),
     extra={"options0": _cols_opt_toggle},
     keys=("right", "left"), mouse=((1, 6, 0),),
 )
@@ -616,7 +616,7 @@ def _gf_cell_width(nd, env):
 
 _mk_container(
     "GridFlow", "flow", "flow",
-    lambda kids, typ: urwid.GridFlow([kids[0], urwid.Edit("s:", ""), urwid.Text("g3")], 5, 1, 0, "left"),
+    lambda kids, typ: urwid.GridFlow([kids[0], urwid.Edit("s:", "", edit_pos=0), urwid.Text("g3")], 5, 1, 0, "left"),
     extra={"cell_width": _gf_cell_width, "cells": _gf_cells},
     keys=("right", "left", "down"), mouse=((1, 7, 0),),
 )
@@ -680,7 +680,7 @@ class _WalkerAsContents:
 
 
 def _lb_items(kids):
-    return [urwid.Text("i0"), kids[0], urwid.Text("i2\nB"), urwid.Edit("e:", ""), urwid.Text("i4"), urwid.Text("i5"), urwid.Text("i6")]
+    return [urwid.Text("i0"), kids[0], urwid.Text("i2\nB"), urwid.Edit("e:", "", edit_pos=0), urwid.Text("i4"), urwid.Text("i5"), urwid.Text("i6")]
 
 
 for _nm, _wcls in (("ListBoxS", urwid.SimpleListWalker), ("ListBoxF", urwid.SimpleFocusListWalker)):
@@ -725,8 +725,8 @@ def _frame_muts(subject_part):
 def _frame_build(part):
     def build(kids, typ):
         h = kids[0] if part == "header" else urwid.Text("HEAD")
-        b = kids[0] if part == "body" else urwid.Filler(urwid.Edit("b:", "body"), "top")
-        f = urwid.Edit("f:", "foot")
+        b = kids[0] if part == "body" else urwid.Filler(urwid.Edit("b:", "body", edit_pos=0), "top")
+        f = urwid.Edit("f:", "foot", edit_pos=0)
         return urwid.Frame(b, h, f), {"header": h, "body": b, "footer": f}
 
     return build
@@ -761,7 +761,7 @@ KINDS["Overlay"] = Kind(
 )
 KINDS["OverlayB"] = Kind(
     "OverlayB", "box", ("box",),
-    lambda kids, typ: (urwid.Overlay(kids[0], urwid.Filler(urwid.Text("bottom text under the overlay")), "center", ("relative", 70), "middle", 2), {"h": 2}),
+    lambda kids, typ: (urwid.Overlay(kids[0], urwid.Filler(urwid.Text("bottom text under the overlay")), "center", ("relative", 70), "middle", 3), {"h": 3}),
     _OV_MUTS, (), ((1, 3, 1),),
 )
 
@@ -1038,6 +1038,7 @@ def _detail(spec, hist, clause, r, minimal=None, tier="thorough"):
             d["why"] = "raised in one run only: " + repr(a if a[0] == "raised" else b)
         else:
             d["why"] = "stale: the cached answer differs from the answer computed with the cache emptied first"
+    d["reproduce"] = "bounded.C06.replay('C06/%s', <this dict>) re-runs both runs; by hand: w = bounded.C06.World(tree); w.step(s) for s in minimal_history; w.step(observation) vs. the same after CanvasCache.clear() in a second World (the i-th call of a mutator uses the i-th value of its cycle in the kind's m_* function)" % clause
     if r.get("step_exc"):
         d["history_step_exceptions"] = [list(map(_j, e)) for e in r["step_exc"]]
     return d
@@ -1153,14 +1154,14 @@ def select_trees(tier, seed):
             else:
                 leaf = fl[i % len(fl)]
                 i += 1
-            plan.append(([n, [leaf]], "quick", 3, ("sample", 300)))
+            plan.append(([n, [leaf]], "quick", 3, ("sample", 200)))
         # depth 2: seeded choice, every inner kind four times as the middle node
         by_mid = {}
         for t in d2:
             by_mid.setdefault(t[1][0][0], []).append(t)
         for mid in INNER:
             c = by_mid.get(mid, [])
-            for t in r.sample(c, min(3, len(c))):
+            for t in r.sample(c, min(2, len(c))):
                 plan.append((t, "quick", 2, "full"))
         return plan
     d3 = trees_of_depth(3)
@@ -1179,12 +1180,12 @@ def select_trees(tier, seed):
         if spec_str(t) in cover_keys:
             plan.append((t, "quick", 3, "full"))
         else:
-            plan.append((t, "quick", 3, ("sample", 600)))
-        plan.append((t, "thorough", 4, ("sample", 150)))
-    for t in r.sample(d2, min(len(d2), 300)):
+            plan.append((t, "quick", 3, ("sample", 250)))
+        plan.append((t, "thorough", 4, ("sample", 80)))
+    for t in r.sample(d2, min(len(d2), 150)):
         plan.append((t, "quick", 2, "full"))
         plan.append((t, "thorough", 3, ("sample", 150)))
-    for t in r.sample(d3, min(len(d3), 200)):
+    for t in r.sample(d3, min(len(d3), 100)):
         plan.append((t, "quick", 2, "full"))
         plan.append((t, "thorough", 4, ("sample", 100)))
     return plan
@@ -1249,7 +1250,7 @@ def work(task):
         "nontrivial": {"cached-equals-fresh": 0, "rows-cached-equals-fresh": 0, "handed-out-unchanged": 0},
         "fail": {"cached-equals-fresh": [], "rows-cached-equals-fresh": [], "handed-out-unchanged": []},
         "nfail": {"cached-equals-fresh": 0, "rows-cached-equals-fresh": 0, "handed-out-unchanged": 0},
-        "groups": {}, "step_exc": {}, "both_raise": {}, "final": [],
+        "groups": {}, "examples": {}, "step_exc": {}, "both_raise": {}, "final": [],
     }
     flow = _typ_of(spec) == "flow"
     seen_sig = {}
@@ -1282,6 +1283,8 @@ def work(task):
                         mini, sig = None, "(not minimised)"
                     g = f"{cl}|{sig}"
                     res["groups"][g] = res["groups"].get(g, 0) + 1
+                    if mini is not None:
+                        res["examples"].setdefault(g, {"tree": spec_str(spec), "minimal_history": [list(map(_j, st)) for st in mini]})
                     if mini is not None and seen_sig.get(g, 0) < 1 and len(res["fail"][cl]) < MAX_FAIL_PER_TREE:
                         seen_sig[g] = seen_sig.get(g, 0) + 1
                         res["fail"][cl].append(_detail(spec, h, cl, r, mini, tier))
@@ -1333,9 +1336,9 @@ def run(tier="quick", seed=0):
 
     ntrees = len(seen_tree)
     if tier == "quick":
-        scope = "all 12 leaves alone (histories <= 3 steps, exhaustive), all 204 root+leaf trees (<= 2 steps exhaustive; 300 seeded 3-step histories on one tree per root kind), 3 seeded root+middle+leaf trees per middle kind (<= 2 steps exhaustive)"
+        scope = "all 12 leaves alone (histories <= 3 steps, exhaustive), all 204 root+leaf trees (<= 2 steps exhaustive; 200 seeded 3-step histories on one tree per root kind), 2 seeded root+middle+leaf trees per middle kind (<= 2 steps exhaustive)"
     else:
-        scope = "all 12 leaves alone (<= 3 steps exhaustive over the full alphabet, 3000 seeded 4-step), all 204 root+leaf trees (<= 2 steps full alphabet exhaustive; 3 steps over the reduced alphabet exhaustive on a set covering every root and leaf kind, 600 seeded on the others; 150 seeded 4-step), 300 seeded depth-2 trees (<= 2 exhaustive, 150 seeded 3-step) and 200 seeded depth-3 trees (<= 2 exhaustive, 100 seeded 4-step)"
+        scope = "all 12 leaves alone (<= 3 steps exhaustive over the full alphabet, 3000 seeded 4-step), all 204 root+leaf trees (<= 2 steps full alphabet exhaustive; 3 steps over the reduced alphabet exhaustive on a set covering every root and leaf kind, 250 seeded on the others; 80 seeded 4-step), 150 seeded depth-2 trees (<= 2 exhaustive, 150 seeded 3-step) and 100 seeded depth-3 trees (<= 2 exhaustive, 100 seeded 4-step)"
     bound = (
         f"{len(KINDS)} widget kinds ({len(LEAVES)} leaves, {len(INNER)} decorations/containers) in chain-shaped trees with fixed siblings, {ntrees} trees: {scope}; "
         "steps = render(2 sizes x focus) / rows / every public mutator of every node / keys and mouse at the root / drop held canvases + gc.collect(); "
@@ -1349,6 +1352,7 @@ def run(tier="quick", seed=0):
             c.t0 = t_start
             c.nontrivial = _Counted()
             c.groups = {}
+            c.examples = {}
             checks[cl, mode] = c
     fin = Check(f"{ID}/finalized-refuse-mutation", RULES["finalized-refuse-mutation"], True, "every tree of the exhaustive plans rendered at 2 sizes x focus; every canvas in the returned canvas tree that carries widget_info x 12 mutators")
     fin.t0 = t_start
@@ -1367,6 +1371,8 @@ def run(tier="quick", seed=0):
             cl, sig = g.split("|", 1)
             c = checks[cl, r["mode"]]
             c.groups[sig] = c.groups.get(sig, 0) + n
+            if g in r["examples"]:
+                c.examples.setdefault(sig, r["examples"][g])
         for k in ("step_exc", "both_raise"):
             for kk, n in r[k].items():
                 diag[k][kk] = diag[k].get(kk, 0) + n
@@ -1374,14 +1380,27 @@ def run(tier="quick", seed=0):
             fin.case(key, ok, detail, True, {"tree": spec_str(detail["tree"]), "canvas": detail["canvas_class"], "mutator": detail["mutator"]})
     out = []
     for c in checks.values():
-        # one failure per signature first (shortest minimal history first), at most 20 kept
-        seen, first, rest = set(), [], []
-        for f in sorted(c.failures, key=lambda f: (len(f.get("minimal_history", f["history"])), f.get("signature", ""))):
-            (first if f.get("signature") not in seen else rest).append(f)
-            seen.add(f.get("signature"))
-        c.failures = (first + rest)[:20]
+        # kept failures (at most 20): first one per family (widget kind of the last mutator of the minimal
+        # history), then one per signature, shortest minimal history first
+        def family(f):
+            last = f.get("signature", "").split("+")[-1]
+            return last.split(".")[0].split(":")[0]
+
+        ordered = sorted(c.failures, key=lambda f: (len(f.get("minimal_history", f["history"])), f.get("signature", "")))
+        fams, sigs, first, second, rest = set(), set(), [], [], []
+        for f in ordered:
+            if family(f) not in fams:
+                first.append(f)
+            elif f.get("signature") not in sigs:
+                second.append(f)
+            else:
+                rest.append(f)
+            fams.add(family(f))
+            sigs.add(f.get("signature"))
+        c.failures = (first + second + rest)[:20]
         res = c.result()
         res["failure_groups"] = dict(sorted(c.groups.items(), key=lambda kv: -kv[1]))
+        res["failure_group_examples"] = c.examples
         out.append(res)
     out.append(fin.result())
     return {"checks": out, "bound": bound, "diagnostics": {"trees": len({spec_str(r["spec"]) for r in results}), "plans": len(results), "cpu_s": round(cpu, 1), "wall_s": round(time.time() - t_start, 1), "history_step_exceptions": diag["step_exc"], "raised_in_both_runs": diag["both_raise"]}}
